@@ -2430,3 +2430,69 @@ def next_location_table(db, chk, cfg, rule="T.next-location"):
                                   "it lies beyond the %s side and must be filed under %s (the opposite side takes precedence: the way round the rectangle is then "
                                   "decided by a cross product, not assumed)" % (side, x, y0, L, R, T, B, got, want, want), where(chain), cfg=cfg)
     return n
+
+
+# ---------------------------------------------------------------------------
+# T.detach: an edge leaving its output record clears the record's pointer to *itself* (C05)
+# ---------------------------------------------------------------------------
+
+def detach_table(db, chk, cfg, rule="T.detach"):
+    """Where an (open) edge E stops contributing, its output record forgets it: `if (IsFront(E)) E.outrec->front_edge = nullptr; else
+    E.outrec->back_edge = nullptr; E.outrec = nullptr;`.  IsFront(E) means `E.outrec->front_edge == &E`, so the field cleared when
+    IsFront(E) holds must be front_edge and the other one otherwise - clearing the other field leaves the record pointing at an edge
+    that no longer belongs to it, and the surviving edge of the piece appends at the wrong end.  Every such branch in the sweep (the
+    selector is interpreted for both answers of IsFront; all sites must agree)."""
+    n = 0
+    for f in db.funcs:
+        if f.is_pattern or f.body is None or f.cls not in ("ClipperBase",):
+            continue
+        for x in walk(f.body):
+            if x.get("kind") != "IfStmt":
+                continue
+            cond, then, els = if_parts(x)
+            if els is None:
+                continue
+
+            def nulled(br):
+                ss = [s for s in (kids(br) if br.get("kind") == "CompoundStmt" else [br]) if isinstance(s, dict) and s.get("kind")]
+                if len(ss) != 1:
+                    return None
+                s0 = strip(ss[0])
+                if s0.get("kind") == "BinaryOperator" and s0.get("opcode") == "=" and canon(kids(s0)[1]) in ("nullptr", "0", "NULL"):
+                    l = strip(kids(s0)[0])
+                    if l.get("kind") == "MemberExpr" and l.get("name") in ("front_edge", "back_edge"):
+                        return l.get("name"), canon(kids(l)[0]) if kids(l) else ""
+                return None
+            a, b = nulled(then), nulled(els)
+            if a is None or b is None or {a[0], b[0]} != {"front_edge", "back_edge"} or a[1] != b[1]:
+                continue
+            for val in (True, False):
+                def hook(name, argv, nd, val=val):
+                    if name == "IsFront":
+                        return val
+                    return NotImplemented
+                # `&e == e.outrec->front_edge` written out counts as IsFront too
+                env = {}
+                try:
+                    t = Interp(db, env, call_hook=hook).ev(cond)
+                    t = bool(t)
+                except Unsupported:
+                    c0 = canon(cond)
+                    if "front_edge" in c0 and "==" in c0:
+                        t = val
+                    elif "front_edge" in c0 and "!=" in c0:
+                        t = not val
+                    else:
+                        raise AnalysisBroken("T.detach: cannot interpret the selector `%s` in %s" % (canon(cond)[:60], f.qual))
+                got = (a if t else b)[0]
+                want = "front_edge" if val else "back_edge"
+                n += 1
+                ok = got == want
+                chk.instance(rule, {"function": f.qual, "at": where(x), "IsFront": val, "clears": got, "cfg": cfg}, ok=ok)
+                if not ok:
+                    chk.violation(rule, f.qual, "%s|IsFront=%s" % (x.get("line"), val),
+                                  "when IsFront(edge) is %s the branch at %s clears `%s->%s`: the record then keeps pointing at the detached edge through %s and "
+                                  "forgets the edge that still belongs to it" % (val, where(x), a[1], got, want), where(x), cfg=cfg)
+    if n < 6:
+        raise AnalysisBroken("T.detach: only %d detach branches found (expected the three sites in IntersectEdges, DoHorizontal, DoMaxima)" % n)
+    return n
